@@ -311,7 +311,7 @@ func zzH_C06_run() {
 var zzPortStrs = []struct {
 	s  string
 	ok bool
-}{{"tcp/8080", true}, {"udp/8080", true}, {"tcp/8081", true}, {"tcp:8080", false}, {"icmp/8080", false}, {"tcp/65536", false}, {"tcp/127.0.0.1:8080", true}, {"tcp/", false}}
+}{{"tcp/8080", true}, {"udp/8080", true}, {"tcp/127.0.0.1:8080", true}, {"tcp:8080", false}, {"tcp/65536", false}, {"tcp/8081", true}, {"icmp/8080", false}, {"tcp/", false}}
 
 // C19/run-ports: the real Run walks P [[port]] entries (port and/or ports, service lists over
 // defined / undefined names); the listener is asked for exactly the reference set, first wins.
@@ -323,11 +323,14 @@ func zzH_C19_runports() {
 		form := zzLen(0, 2)
 		if form == 0 || form == 2 {
 			pc.hasPort = true
-			pc.port = zzPortStrs[zzLen(0, len(zzPortStrs)-1)].s
+			pc.port = zzPortStrs[zzLen(0, zzParam("S", 5))].s
 		}
 		if form == 1 || form == 2 {
 			pc.hasPorts = true
-			pc.ports = []string{zzPortStrs[zzLen(0, len(zzPortStrs)-1)].s}
+			pc.ports = []string{zzPortStrs[zzLen(0, zzParam("S", 5))].s}
+			if form == 1 && zzLen(0, 1) == 1 {
+				pc.ports = append(pc.ports, zzPortStrs[zzLen(0, 1)].s)
+			}
 		}
 		switch zzLen(0, 3) {
 		case 0:
